@@ -38,6 +38,39 @@ def load_variants(pids=None):
             if pids and v["pid"] not in pids:
                 continue
             out.append(v)
+    out.extend(patch_variants(pids))
+    return out
+
+
+def claimed_pids():
+    try:
+        return [c["property_id"] for c in json.load(open(os.path.join(VERIF, "MANIFEST.json")))["checks"]]
+    except (OSError, ValueError, KeyError):
+        return []
+
+
+def patch_variants(pids=None):
+    """Whole-patch variants: behaviour-preserving refactorings written by independent agents (/verif/refactors/<name>/patch.diff,
+    must stay silent for every claimed property) and confirmed property-breaking changes (/verif/seeded/<name>/, must be
+    reported by the properties recorded in their meta.json)."""
+    out = []
+    want = list(pids) if pids else claimed_pids()
+    d = os.path.join(VERIF, "refactors")
+    if os.path.isdir(d):
+        for name in sorted(os.listdir(d)):
+            pf = os.path.join(d, name, "patch.diff")
+            if os.path.exists(pf):
+                for pid in want:
+                    out.append(dict(id=f"{pid}-refactor-{name}", pid=pid, patch=pf, file=name, old="", new="", expect="silent", rule=None))
+    d = os.path.join(VERIF, "seeded")
+    if os.path.isdir(d):
+        for name in sorted(os.listdir(d)):
+            pf, mf = os.path.join(d, name, "patch.diff"), os.path.join(d, name, "meta.json")
+            if os.path.exists(pf) and os.path.exists(mf):
+                rep = json.load(open(mf)).get("reported_by", {})
+                for pid, rules in rep.items():
+                    if pid in want:
+                        out.append(dict(id=f"{pid}-seed-{name}", pid=pid, patch=pf, file=name, old="", new="", expect="fire", rule=(rules or [None])[0]))
     return out
 
 
@@ -46,7 +79,11 @@ def run_variant(v, repo="/repo"):
     try:
         shutil.copytree(os.path.join(repo, "rex"), os.path.join(tmp, "rex"),
                         ignore=shutil.ignore_patterns("__pycache__", "*.pyc"))
-        edits = v.get("edits") or [(v["file"], v["old"], v["new"])]
+        if v.get("patch"):
+            p = subprocess.run(["patch", "-p1", "-s", "-f", "-d", tmp, "-i", v["patch"]], capture_output=True, text=True)
+            if p.returncode != 0:
+                return dict(v=v["id"], status="stale", detail="patch does not apply to this tree")
+        edits = [] if v.get("patch") else (v.get("edits") or [(v["file"], v["old"], v["new"])])
         for file, old, new in edits:
             path = os.path.join(tmp, file)
             src = open(path).read()
